@@ -97,13 +97,15 @@ def run(chk, repo, tier):
     C02b.run_b16(chk, repo)
     C02b.run_b17(chk, repo)
     C02b.run_b18(chk, repo)
+    C02b.run_b24(chk, repo)
     C02b.run_b19(chk, repo)
     C02b.run_b20(chk, repo)
     C02b.run_b21_b22(chk, repo)
     C02b.run_b23(chk, repo)
     # the $OMEGA writer is shared with C04: the order of its scale conversions decides what the generated record means
-    from rules.C04b import run_p13_p15
+    from rules.C04b import run_p13_p15, run_p19_p20
     run_p13_p15(chk, repo)
+    run_p19_p20(chk, repo)
     from rules.C01b import run_a9
     run_a9(chk, B13, repo, modname='pharmpy.model.external.nonmem.update', minimum=3)
 
